@@ -203,6 +203,14 @@ class C17(HsProp):
         for name, chunks in gen_hs.endless_heads():
             out.append(gen_hs.hs_case('end_%s' % name, 'none', ['r'], gen_hs.rds_of(chunks), [], [])); k += 1
             out.append(gen_hs.hc_case('endc_%s' % name, b'ws://example.com/', ops=['r'], rds=gen_hs.rds_of(chunks))); k += 1
+            # the same with WouldBlock interleaved (every read / every 10th / randomly): the guard must count across resumptions
+            for period in (1, 10, 40):
+                rds = []
+                for i, c in enumerate(chunks):
+                    if i % period == period - 1: rds.append('e:wb')
+                    rds.append('d:' + hx(c))
+                out.append(gen_hs.hs_case('endw%d_%s' % (period, name), 'none', ['r'], rds, [], [])); k += 1
+                out.append(gen_hs.hc_case('endcw%d_%s' % (period, name), b'ws://example.com/', ops=['r'], rds=rds)); k += 1
         # parser assumption tests on every prefix
         for tag, head in (('req', good), ('req', junk), ('resp', resp.replace(gen_hs.ACCEPT_MARK, b'x' * 28))):
             step = 1 if not quick else 3
